@@ -19,7 +19,7 @@ RULE = ('generated composers (1-3 timed processes, optional nested sub-compartme
         'keys; non-trivial = embedding depth >=1 or >=3 merges, and a nested sub-compartment or >=2 processes; '
         'distinct = distinct case spec')
 PLAN = {'quick': {'n': 2500, 'min_cases': 200}, 'thorough': {'n': 30000, 'min_cases': 3000}}
-REQUIRED_ORACLES = ['fresh_composite_pristine', 'embed_structure', 'embed_run', 'merged_in_unchanged', 'merge_is_union', 'entry_points_same_run',
+REQUIRED_ORACLES = ['process_generate', 'fresh_composite_pristine', 'embed_structure', 'embed_run', 'merged_in_unchanged', 'merge_is_union', 'entry_points_same_run',
                     'override_reaches_named_only', 'metacomposer_overlap']
 ANCHORS = ['vivarium.core.composer:Composer.generate', 'vivarium.core.process:Process.generate',
            'vivarium.core.process:assoc_in', 'vivarium.core.composer:Composite.merge',
@@ -173,6 +173,19 @@ def run(spec):
         V.check('embed_run', {t: nestp(path, v) for t, v in d1.items()} == d2,
                 lambda: ('the composite embedded at %r runs differently from the root composite' % (path,),))
         stats['rows'] = len(d1)
+
+        # a single process used as its own composer: Process.generate embeds at a path the same way
+        pr = P({'name': 'solo', 'inc': 2, 'ts': 0.5}).generate()
+        pe = P({'name': 'solo', 'inc': 2, 'ts': 0.5}).generate(path=path)
+        V.check('process_generate', shape(pe['processes'], Process) == nestp(path, shape(pr['processes'], Process)) and
+                pe['topology'] == nestp(path, pr['topology']) and pr['topology'] == {'solo': {'S': ('S',)}},
+                lambda: ('Process.generate(path=%r) is not the root result nested under the path' % (path,), pe['topology']))
+        g1 = Engine(processes=pr['processes'], topology=pr['topology'], display_info=False)
+        g1.update(2)
+        g2 = Engine(processes=pe['processes'], topology=pe['topology'], display_info=False)
+        g2.update(2)
+        V.check('process_generate', {t: nestp(path, v) for t, v in g1.emitter.get_data().items()} == g2.emitter.get_data(),
+                lambda: ('a process generated at %r runs differently from the root one' % (path,),))
 
         # the three entry points
         parts = C(cfg).generate()
